@@ -201,6 +201,60 @@ def clause_filter_before_page(prog, rep):
     rep.floor("pagination", "memory listings that filter and page", n, 1)
 
 
+MUTATORS = ("put", "pop", "pop_entry", "insert", "remove", "retain", "clear", "push", "push_back", "push_front", "pop_front", "pop_back",
+            "extend", "truncate", "drain", "append", "resize", "pop_lru")
+CONTAINERS = ("LruCache", "HashMap", "BTreeMap", "BTreeSet", "Vec", "VecDeque", "HashSet")
+
+
+def clause_refusal_leaves_state(prog, rep):
+    """a refused SQLite operation changes nothing (the statement fails as a whole, multi-statement operations are bracketed — C12); the memory
+    backend is the same store only if its methods refuse *before* they touch the maps: no error exit is reachable after a mutation of the
+    storage's own maps, except the exit that tests the mutating call's own result (`remove(..).ok_or(NotFound)`: nothing was removed)"""
+    n = 0
+    for f in prog.nontest_fns(("mdk_memory_storage",)):
+        if f.is_closure():
+            continue
+        muts = []
+        for c in f.live_calls():
+            if c.name not in MUTATORS or last_seg(c.self_adt) not in CONTAINERS or "to" not in c.t or not c.args or "p" not in c.args[0]:
+                continue
+            # the receiver is one of the storage's maps (a field of the locked inner state), not a local collection
+            flds = [e for e in c.args[0]["p"][1:] if isinstance(e, str) and e.startswith(".")]
+            dep, _, _ = f.depends_on(c.args[0]["p"][0])
+            for l in dep:
+                for bb, kind, x in f.defs().get(l, []):
+                    if kind == "stmt":
+                        for o in x.get("o", []):
+                            if "p" in o:
+                                flds += [e for e in o["p"][1:] if isinstance(e, str) and e.startswith(".")]
+            if any(e.endswith("_cache") or e in (".snapshots", ".group_snapshots") for e in flds):
+                muts.append(c)
+        if not muts:
+            continue
+        errs = A.err_exit_blocks(f)
+        for m in muts:
+            n += 1
+            after = f.reachable_from(m.t["to"])
+            late = []
+            for e in sorted(errs & after):
+                own = False
+                for w in A.control_dependent_switches(f, e):
+                    l = A._opl(f.term(w)["discr"])
+                    if l is None:
+                        continue
+                    dep, calls, _ = f.depends_on(l)
+                    if m.dst and m.dst[0] in dep and w in after:
+                        own = True
+                if not own:
+                    late.append(e)
+            label = prog.fns.get(f.root, f).label()
+            rep.check(not late, "refusal-leaves-state", "memory/%s/%s" % (label, m.name),
+                      "no refusal is reachable after this change of the storage's maps",
+                      "%s can still return an error after it has changed the storage's maps (%s): the refused call leaves a half-applied change behind, "
+                      "where the SQLite backend changes nothing" % (label, m.name), m.loc())
+    rep.floor("refusal-leaves-state", "map mutations in memory-backend methods", n, 20)
+
+
 def run(ctx, rep):
     prog = ctx.prog()
     sch = sqlmod.Schema()
@@ -211,6 +265,7 @@ def run(ctx, rep):
     rep.clause("C10.2 selection predicates of the invalidation / retry / pending queries agree between SQL WHERE clauses and the memory backend's MIR comparisons; same state constants written")
     rep.clause("C10.3 GroupDataType used by each of the StorageProvider methods agrees across backends and forms write/read/delete triples; schema CHECK list = as_str image")
     rep.clause("C10.4 upserts assign every non-key column on a key conflict; row mappers read every inserted column; per trait method the SQLite tables correspond to the memory caches touched")
+    rep.clause("C10.6 memory backend: a method that refuses does so before it changes the storage's maps (the SQLite sibling's failed statement changes nothing)")
     rep.clause("C10.5 ORDER BY lists = comparator chains = memory sort closures; limit validation and pagination arithmetic agree (shared with C18)")
     rep.not_decided = "observable equality on arbitrary operation sequences, LRU capacity effects (memory eviction), error wording"
     for s in sites:
@@ -228,3 +283,5 @@ def run(ctx, rep):
     c18.clause_orders(prog, rep, sch, sites)
     c18.clause_pagination(prog, rep)
     clause_filter_before_page(prog, rep)
+    clause_refusal_leaves_state(prog, rep)
+    sqlrules.clause_stored_verbatim(prog, rep, sites, "upsert-complete", {"messages", "processed_messages", "groups", "welcomes", "processed_welcomes", "group_relays", "group_exporter_secrets"}, floor=5)
